@@ -78,14 +78,14 @@ def run(tier, seed):
         failing = []
         # histories: the SAME paths are rewritten with other contents (other lengths) between creates in one process, then
         # restored — what a create reads is the file as it is at that moment (no memory of earlier creates)
-        for variant in (0, 1, 0):
+        for variant in (0, 1, 2, 0):
             cases = build_cases(ck, tmp, variant)
             mres = interp.model_batch(ck, [["create", d, [[p, c] for p, c in files.items()], []] for d, files, _ in cases])
             for (desc, files, expect), mr in zip(cases, mres):
                 ires = interp.run_impl(interp.impl_create, desc)
                 ck.count(expect["kind"] + ("" if variant == 0 else "_rewritten"), json.dumps(desc, sort_keys=True, default=str) + str(variant),
                          nontrivial=ires[0] == "ok",
-                         sample={"kind": expect["kind"], "history": ["first write", "same paths rewritten", "restored"][ck.cov.get("_pass", 0)],
+                         sample={"kind": expect["kind"], "history": ["first write", "same paths rewritten (other lengths)", "same paths rewritten (same lengths, other contents)", "restored"][ck.cov.get("_pass", 0)],
                                  **{k: v for k, v in expect.items() if k in ("size", "alg", "form")}})
                 if mr != ires and not any(b[1] == "Interp.create (files)" for b in ck.broken):
                     ck.broken.append(("corr", "Interp.create (files)", f"{json.dumps(desc, default=str)[:500]}: model {short(mr)} implementation {short(ires)}"))
@@ -127,7 +127,7 @@ def build_cases(ck, tmp, variant=0):
     sizes = SIZES if ck.deep else SIZES[:7]
     combos = [(s, a) for s in sizes for a in (algs if (ck.deep or s == 255) else [algs[(s + 1) % 5]])]
     for size, alg in combos:
-        c = blob(size + 7 * variant, size + variant)
+        c = blob(size + 7 * (variant % 2), size + variant)
         size = len(c)
         # image digest + size from the same file
         p = fpath(c)
@@ -156,7 +156,7 @@ def build_cases(ck, tmp, variant=0):
     # dependencies: inline and by path, depth 2 and 3; digest / size of the dependency by envelope
     for depth in (2, 3):
         for alg in (algs if ck.deep else algs[:2]):
-            leaf_payload = blob(24 + 9 * variant, depth + variant)
+            leaf_payload = blob(24 + 9 * (variant % 2), depth + variant)
             lp = fpath(leaf_payload, "leaf.bin")
             child = base_env({"suit-manifest-component-id": ["C", depth]}, {"suit-integrated-payloads": {"#leaf": lp}}, alg=algs[depth % 5])
             files = {lp: leaf_payload}
